@@ -22,7 +22,10 @@ ASSUMPTIONS = [
 ]
 
 
-FAMILIES = ["basic", "d8-", "d15-", "resub-sorted", "d17-", "d16-", "s5-", "a-start", "s1-", "s2-", "s3-", "s4-", "s6-", "s7", "b-", "b2-",
+# direct clauses reported under a clause of the property
+DIRECT_CLAUSE = {"resend_before_dispatch": "fifo"}   # a queued command must not overtake the retransmissions of a resumed session
+
+FAMILIES = ["r-", "basic", "d8-", "d15-", "resub-sorted", "d17-", "d16-", "s5-", "a-start", "s1-", "s2-", "s3-", "s4-", "s6-", "s7", "b-", "b2-",
             "b3-", "b4-", "many-", "large-", "rand-", "conc-"]
 
 
@@ -60,7 +63,7 @@ def run(ck):
     direct_fail = [l for l in ex if l.startswith("direct ") and " FAIL" in l]
     for l in direct_fail:
         w = l.split()
-        clause = w[1]
+        clause = DIRECT_CLAUSE.get(w[1], w[1])
         ck.fail_input(clause, l, per.get(w[2], [])[:400] + [l])
     tie_only = []
     witnessed = False
